@@ -13,6 +13,7 @@ LEVEL_TEXT = ("Generated sets of 2-6 anchored ACGT adapters (equal and mixed len
               "one adapter, lower case, with N. Every index match is checked by a reference oracle (inside the read, anchored, exact "
               "distance, tolerance); when exactly one adapter occurs within tolerance the index must report it; for equal lengths "
               "without indels and no tie, index and one-by-one search must agree for every permutation of the adapter list.")
+LEVEL_TEXT += ' Demultiplexing-sized sets (48-100 barcodes) with characters that are neither a base nor N (including U) at varying positions, and a second index object that sees the same reads in reversed order (the answer must not depend on earlier reads).'
 LEVEL_NOTE = ("Trusted base: refmodel edit/Hamming distance with plain (case-insensitive) comparison; reference enumeration of all "
               "admissible affix lengths. The tie premise is evaluated both over all adapters and over the adapters within tolerance; "
               "a case is used for the agreement clause only if neither pair ties.")
